@@ -368,6 +368,34 @@ fn run_history_via_start(spec: &Spec) -> Vec<(String, String)> {
     v
 }
 
+/// For C13 (fairness between addresses, where the limiter is used): with PROXY protocol and a limit of 2, clients
+/// announcing three sources arrive through two load balancers in several orders; each is served exactly while its
+/// own source is within its budget, whatever the others and the load balancers did. Returns (key, text, replay).
+pub fn limiter_fairness_through_listener() -> Vec<(String, String, serde_json::Value)> {
+    let (p1, p2) = ("127.0.0.1", "127.0.0.2");
+    let x1 = k(p1, &format!("v1:{X}"));
+    let x2 = k(p2, &format!("v2:{X}"));
+    let y1 = k(p1, &format!("v1:{Y}"));
+    let y2 = k(p2, &format!("v1:{Y}"));
+    let z1 = k(p1, &format!("v2:{Z}"));
+    let hs: Vec<Vec<Kind>> = vec![
+        vec![x1.clone(), x1.clone(), x1.clone(), y1.clone(), y1.clone(), y1.clone(), z1.clone()],
+        vec![x1.clone(), y1.clone(), x2.clone(), y2.clone(), x1.clone(), y1.clone(), z1.clone(), z1.clone(), z1.clone()],
+        vec![x1.clone(), x2.clone(), x1.clone(), x2.clone(), y2.clone(), z1.clone(), y1.clone(), y2.clone()],
+        vec![z1.clone(), z1.clone(), z1.clone(), z1.clone(), x1.clone(), y1.clone()],
+    ];
+    let mut out = vec![];
+    for limit in [1usize, 2] {
+        for h in &hs {
+            let spec = Spec { proxy: "v1v2".into(), limit, history: h.clone(), login_last: false, via_start: false, window_s: 3600, timeout_s: 20 };
+            for (key, t) in run_history(&spec) {
+                out.push((format!("listener:{key}"), format!("{t}; history {}", serde_json::to_string(&spec).unwrap()), json!({"listener": spec})));
+            }
+        }
+    }
+    out
+}
+
 fn histories(proxy: &str, depth: usize) -> Vec<Vec<Kind>> {
     let ks = kinds(proxy);
     let mut out: Vec<Vec<Kind>> = vec![];
